@@ -9,7 +9,7 @@
 From Coq Require Import String.
 From Coq Require Import NArith ZArith List Bool.
 From Cose Require Import Lib.Base Lib.Cbor Lib.CborProofs Model.GoVal Model.CborGo Model.Wire Model.MsgLogic Model.Msg Model.MsgProofs Model.MsgRoundTrip Model.ValueRoundTrip Model.MsgRoundTripFull
-     Lib.Hex Lib.HexProofs Model.Text Model.TextProofs Model.MsgRoundTripRecip Model.KdfRoundTrip Model.CwtCodec Model.CwtCodecProofs Lib.GenTypes Gen.StructsGen Model.KeySet Model.KeySetProofs.
+     Lib.Hex Lib.HexProofs Model.Text Model.TextProofs Model.MsgRoundTripRecip Model.KdfRoundTrip Model.CwtCodec Model.CwtCodecProofs Lib.GenTypes Gen.StructsGen Model.KeySet Model.KeySetProofs Lib.GoSem Gen.FuncsGen Model.FuncsUntag.
 Import ListNotations.
 
 (* ---- the authenticated byte strings are re-emitted as received *)
@@ -195,3 +195,16 @@ Theorem C09_keyset_roundtrip : forall (ks : list cosemap) bs, Forall good_map ks
   dec_keyset bs = Ok (Some (map read_back ks)).
 Proof. exact keyset_roundtrip. Qed.
 Print Assumptions C09_keyset_roundtrip.
+
+(* ---- the source of RemoveCBORTag itself (function body regenerated by the translator on every run): it is the model's
+   function, so it takes off the tag of a message of any kind, with or without the CWT tag, and nothing else *)
+Theorem C09_remove_tag_source : forall k fs, shaped k fs ->
+  cose_RemoveCBORTag (enc_tagged (cose_tag k) (enc_array fs)) = Ok (enc_array fs)
+  /\ cose_RemoveCBORTag (cwt_prefix ++ enc_tagged (cose_tag k) (enc_array fs))%list = Ok (enc_array fs)
+  /\ cose_RemoveCBORTag (enc_array fs) = Ok (enc_array fs).
+Proof. exact gen_remove_tag_only_the_tag. Qed.
+Print Assumptions C09_remove_tag_source.
+
+Theorem C09_remove_tag_source_is_model : forall data, cose_RemoveCBORTag data = Ok (remove_cbor_tag data).
+Proof. exact gen_remove_cbor_tag. Qed.
+Print Assumptions C09_remove_tag_source_is_model.
